@@ -158,7 +158,7 @@ const LENS: [usize; 24] = [0, 1, 2, 31, 32, 54, 55, 56, 57, 63, 64, 65, 110, 111
 
 impl DigestStream {
     fn fragments(rng: &mut Rng, data: &[u8]) -> (Vec<Vec<u8>>, &'static str) {
-        let mode = rng.below(6);
+        let mode = rng.below(7);
         let mut out: Vec<Vec<u8>> = vec![];
         let name;
         match mode {
@@ -205,6 +205,20 @@ impl DigestStream {
                     p += n;
                 }
             }
+            5 => {
+                name = "frag:block-edge";
+                // pieces that end exactly on, one before and one after a block edge: 63,1,64 / 64,64 / 1,63,65 ...
+                let pat: &[usize] = *rng.pick(&[&[63usize, 1, 64][..], &[64, 64][..], &[1, 63, 65][..], &[55, 1, 8][..], &[56, 8][..], &[127, 1, 128][..], &[65, 63][..]]);
+                let mut p = 0;
+                for n in pat.iter().cycle() {
+                    if p >= data.len() {
+                        break;
+                    }
+                    let n = (*n).min(data.len() - p);
+                    out.push(data[p..p + n].to_vec());
+                    p += n;
+                }
+            }
             _ => {
                 name = "frag:one-shot";
                 out.push(data.to_vec());
@@ -224,7 +238,7 @@ impl Scenario for DigestStream {
             real: &["bsv::Sha256r / Sha256d / Hash160 through digest::{Update, Reset, FixedOutput, FixedOutputDirty}, Clone and ReversibleDigest", "hmac::Hmac over the three adapters (the composition Hash::*_hmac and RFC 6979 use)", "bsv::Hash::{sha_1, sha_256, sha_256d, sha_512, ripemd_160, hash_160} and their *_hmac variants", "bsv::KDF::pbkdf2 (SHA-1/256/512)"],
             stub: &["model = bytes accepted since the last reset, hashed one-shot by sha2 / sha-1 / ripemd160 directly", "textbook RFC 2104 HMAC and RFC 8018 PBKDF2 over those primitives (reference-model oracles without a schedule dimension of their own)"],
             assumptions: &["the primitive crates sha2, sha-1 and ripemd160 are the independent reference for the published algorithms", "an instance obtained through reverse() stays reversed for its lifetime, across reset and *_reset finishers (the mode is a property of the instance; this is what the shipped adapters do)"],
-            required_probes: &["frag:dribble1", "frag:block-aligned", "frag:boundary", "frag:random", "frag:zero-length", "via_digest_trait", "fork_midstream", "reset_midstream", "finalize_reset_then_second_message", "reversed_finalize", "oneshot", "hmac_key_longer_than_block", "pbkdf2_multi_block"],
+            required_probes: &["frag:dribble1", "frag:block-aligned", "frag:boundary", "frag:random", "frag:zero-length", "frag:block-edge", "via_digest_trait", "fork_midstream", "reset_midstream", "finalize_reset_then_second_message", "reversed_finalize", "oneshot", "hmac_key_longer_than_block", "pbkdf2_multi_block"],
             quick_runs: 100000,
             thorough_runs: 5000000,
             rlimit_as: 4 << 30,
@@ -271,6 +285,8 @@ impl Scenario for DigestStream {
                         if Some(i) == reversed_at {
                             events.push(json!({"op": "reverse", "sink": s}));
                             reversed = true;
+                        } else if reversed && rng.chance(1, 30) {
+                            events.push(json!({"op": "reverse", "sink": s}));
                         }
                         let call = *rng.pick(&["update", "update", "write", "write_all"]);
                         events.push(json!({"op": call, "sink": s, "data": hx(f), "policy": fname}));
@@ -302,6 +318,10 @@ impl Scenario for DigestStream {
                         for f in fr2 {
                             events.push(json!({"op": "update", "sink": s, "data": hx(&f), "policy": fname2}));
                         }
+                    }
+                    if rng.chance(1, 20) {
+                        // reset directly before finishing: the digest of the empty message
+                        events.push(json!({"op": "reset", "sink": s}));
                     }
                     events.push(json!({"op": "finalize", "sink": s}));
                 }
@@ -552,9 +572,13 @@ impl Scenario for DigestStream {
                         }
                         "reverse" => {
                             let s = sinks[i].as_mut().unwrap();
-                            if s.is_mac() || s.reversed {
+                            if s.is_mac() {
                                 ctx.skip();
                                 continue;
+                            }
+                            if s.reversed {
+                                // reverse() of a reversed instance (e.g. of its clone) stays reversed
+                                ctx.probe("reverse_of_reversed");
                             }
                             match &s.eng {
                                 Engine::R(e) => s.eng = Engine::R(e.reverse()),
